@@ -259,7 +259,7 @@ func (w *vC02HWorld) msg(k vC02HSel, seq uint64) cciptypes.Message {
 func (w *vC02HWorld) answer(k vC02HSel, rg cciptypes.SeqNumRange) ([]cciptypes.Message, error) {
 	mode := w.msgMode[k]
 	if mode == "error" {
-		return nil, vErr
+		return nil, vErrNext()
 	}
 	ms := []cciptypes.Message{}
 	for q, cnt := uint64(rg.Start()), 0; q <= uint64(rg.End()) && q <= w.fin[k] && cnt < 48; q, cnt = q+1, cnt+1 {
@@ -343,19 +343,19 @@ type vC02HSupport struct{ w *vC02HWorld }
 func (s vC02HSupport) DestChain() vC02HSel { return vC02Dest }
 func (s vC02HSupport) SupportedChains(commontypes.OracleID) (mapset.Set[vC02HSel], error) {
 	if s.w.supErr {
-		return nil, vErr
+		return nil, vErrNext()
 	}
 	return mapset.NewSet(s.w.supList()...), nil
 }
 func (s vC02HSupport) SupportsDestChain(commontypes.OracleID) (bool, error) {
 	if s.w.sdErr {
-		return false, vErr
+		return false, vErrNext()
 	}
 	return s.w.sd, nil
 }
 func (s vC02HSupport) KnownSourceChainsSlice() ([]vC02HSel, error) {
 	if s.w.knownErr {
-		return nil, vErr
+		return nil, vErrNext()
 	}
 	return s.w.knownList(), nil
 }
@@ -787,13 +787,13 @@ func TestVerif_C02_hist(t *testing.T) {
 			MsgsFn: func(chain vC02HSel, rg cciptypes.SeqNumRange) ([]cciptypes.Message, error) { return w.answer(chain, rg) },
 			AddrFn: func(name string, chain vC02HSel) ([]byte, error) {
 				if w.addrErr[chain] {
-					return nil, vErr
+					return nil, vErrNext()
 				}
 				return w.addr[chain], nil
 			},
 			NextSeqNumFn: func(chains []vC02HSel) ([]cciptypes.SeqNum, error) {
 				if w.nextMode == 1 {
-					return nil, vErr
+					return nil, vErrNext()
 				}
 				out := make([]cciptypes.SeqNum, 0, len(chains)+1)
 				for _, c := range chains {
@@ -809,7 +809,7 @@ func TestVerif_C02_hist(t *testing.T) {
 			},
 			ExpectedNextFn: func(src, dst vC02HSel) (cciptypes.SeqNum, error) {
 				if w.expErr[src] {
-					return 0, vErr
+					return 0, vErrNext()
 				}
 				if w.expZero[src] {
 					return 0, nil
@@ -818,7 +818,7 @@ func TestVerif_C02_hist(t *testing.T) {
 			},
 			CurseFn: func(dest vC02HSel, src []vC02HSel) (*readerpkg.CurseInfo, error) {
 				if w.curseErr {
-					return nil, vErr
+					return nil, vErrNext()
 				}
 				ci := &readerpkg.CurseInfo{CursedSourceChains: map[vC02HSel]bool{}, GlobalCurse: w.blocked == 1, CursedDestination: w.blocked == 2}
 				for k, c := range w.cursed {
